@@ -2,6 +2,7 @@ package main
 
 import (
 	"encoding/json"
+	"strings"
 	"encoding/hex"
 	"fmt"
 	"reflect"
@@ -56,6 +57,18 @@ func runParseCase(c Case) (Result, string) {
 			r.Direct["usable"] = "String() " + so.wire
 		} else {
 			r.Direct["usable"] = "ok"
+		}
+		// … and evaluated: a panic of Eval on a tree that Compile returned is a Compile defect
+		// (user-defined functions are skipped: unbounded recursion is outside the property)
+		if !strings.Contains(string(src), "function") && !strings.Contains(string(src), "λ") && len(src) < 200 {
+			if e, err := jsonata.Compile(string(src)); err == nil {
+				eo := guarded(func() (interface{}, error) {
+					return e.Eval(map[string]interface{}{"a": map[string]interface{}{"b": []interface{}{1.0, 2.0}}, "cfg": map[string]interface{}{"len": 2.0, "key": "a"}, "lens": []interface{}{1.0, 2.0}})
+				})
+				if eo.paniced && strings.Contains(eo.wire, hex.EncodeToString([]byte("unexpected node type"))) {
+					r.Direct["usable"] = "Compile returned an expression that cannot be evaluated: " + eo.wire
+				}
+			}
 		}
 	}
 	// MustCompile panics exactly when Compile returns an error
